@@ -100,4 +100,18 @@ CLAIMS = {
         'not_decided': 'equality of file contents with a from-scratch build over histories and schedules; anything '
                        'depending on real mtimes; correctness of the plan under dyndep surgery.',
     },
+    'C02': {
+        'design': '5.2',
+        'technique': 'writer/reader table agreement (hash chain, flag accessors, template instantiations) + strict comparison contract + provenance + who-may-write over clang CFG facts',
+        'decides': 'the logged command hash and the hash the scan compares with it come from the same chain '
+                   'HashCommand(EvaluateCommand(true)); restat/generator are read through the same accessor by scan '
+                   'and builder; both instantiations of the output check apply the restat shortcut under the same '
+                   'conditions; RecordCommand writes one entry per output keyed by its path and the scan looks up '
+                   'by the same key; the dirty relations are strict; deps are recorded with Stat() of the same '
+                   'output; restat pruning uses == and falls back to the start time; AlreadyUpToDate == '
+                   '!more_to_do() and an up-to-date plan returns success without reaching Build; the build log '
+                   'is reopened lazily in append mode after Close().',
+        'not_decided': 'that the times recorded at run time dominate the inputs\' times (clock / file system); '
+                       'multi-session interplay.',
+    },
 }
